@@ -106,7 +106,9 @@ func Main(m *testing.M, prop string) {
 	switch os.Getenv("VERIF_MODE") {
 	case "parent":
 		os.Exit(parentMain(prop))
-	case "worker", "replay":
+	case "det":
+		os.Exit(detParent(prop))
+	case "worker", "replay", "detworker", "one":
 		os.Exit(m.Run())
 	default:
 		fmt.Println("verif check binary: run through /verif/check")
@@ -121,6 +123,18 @@ func Worker(t *testing.T, prop string) {
 		workerMain(t, prop)
 	case "replay":
 		replayMain(t, prop)
+	case "detworker":
+		detWorker(t, prop)
+	case "one":
+		// debugging aid: one seed (VERIF_SEED is the run seed itself), result printed
+		rig := RigFor(prop)
+		seed := seedFromEnv()
+		startWatchdog()
+		arm(seed, 10*time.Minute)
+		tape := NewTape(seed)
+		res := Execute(t, rig, tierFromEnv(), tape, loadKnown(prop))
+		b, _ := json.MarshalIndent(res, "", " ")
+		fmt.Printf("%s\n", b)
 	default:
 		t.Skip("not under /verif/check")
 	}
@@ -296,10 +310,16 @@ func replayMain(t *testing.T, prop string) {
 		fmt.Printf("HARNESS: bad replay file: %v\n", err)
 		os.Exit(2)
 	}
-	// a replay ignores the known-findings file: it shows what the tape does
+	// listed known findings stay non-fatal during a replay (the run continues
+	// past them exactly as it did when the file was recorded), except the key
+	// the file itself is about: a replay file OF a known finding reproduces it
+	known := loadKnown(prop)
+	if rf.Violation != nil {
+		delete(known, rf.Violation.Key)
+	}
 	startWatchdog()
 	arm(rf.Seed, 10*time.Minute)
-	res := Execute(t, rig, rf.Tier, ReplayTape(rf.Seed, rf.Tape), map[string]string{})
+	res := Execute(t, rig, rf.Tier, ReplayTape(rf.Seed, rf.Tape), known)
 	disarm()
 	if res.Harness != "" {
 		fmt.Printf("HARNESS: %s\n", res.Harness)
